@@ -88,6 +88,57 @@ Theorem C16_case_part_name : forall c x y, lower x = lower y -> ct_lookup c x = 
 Proof. exact ct_lookup_case_name. Qed.
 Print Assumptions C16_case_part_name.
 
+(** regularise: take out everything the loader ignores (dangling internal relationships,
+    unreferenced members, rels items of absent parts) and give every instantiated part a
+    rels item.  When what is left is a well-formed package - that is, when the package's only
+    defects are the tolerated irregularities - opening the irregular package gives the same
+    package relationships and the same parts (name, type, payload, relationships) as
+    opening its regularised form *)
+Theorem C16_regularise : forall blob (E : env blob) (p : phys blob) k,
+  codec_ok E -> load E p = Ok k -> (forall n, In n (part_names E p) -> part_name n) ->
+  wf E (regularise E p) ->
+  exists k', load E (regularise E p) = Ok k' /\ k_rels k' = k_rels k /\
+             (forall pt, In pt (iter_parts k') <-> In pt (iter_parts k)).
+Proof. exact @c16_regularise. Qed.
+Print Assumptions C16_regularise.
+
+(** with C01 on the regularised form: an irregular package opens with exactly the parts
+    still reachable once the dangling relationships are left out, and the loaded graph is
+    closed (every kept internal relationship points at one of those parts) *)
+Theorem C16_preserved : forall blob (E : env blob) (p : phys blob) k,
+  codec_ok E -> load E p = Ok k -> (forall n, In n (part_names E p) -> part_name n) ->
+  wf E (regularise E p) ->
+  (forall x, In x (map p_name (iter_parts k)) <-> (reachable E (regularise E p) x /\ x <> root)) /\
+  (forall r, In r (k_rels k) -> l_ext r = false -> In (l_target r) (map p_name (iter_parts k))) /\
+  (forall pt r, In pt (iter_parts k) -> In r (p_rels pt) -> l_ext r = false ->
+                In (l_target r) (map p_name (iter_parts k))).
+Proof. exact @c16_preserved. Qed.
+Print Assumptions C16_preserved.
+
+(* C16_save_partial (not proved): save E k and save E k' of C16_regularise have the same
+   members with the same bytes (same_package), under env_ok and no_default_clash on the
+   regularised form.  What is missing is that save does not depend on the order in which
+   iter_parts yields the parts; C01_idem proves that for a package and its own saved form
+   only.  The correspondence (checks/c16.py, c01.py malformed stream) exercises it. *)
+
+(** rename_slide_parts (first access of prs.slides): when the listed relationship ids lead
+    to distinct parts, the j-th listed slide part is named /ppt/slides/slide(j+1).xml
+    afterwards, whatever it was called before (non-contiguous, out of order) *)
+Theorem C16_rename : forall rs rids m, rename_map rs rids 1 = Ok m -> NoDup (map fst m) ->
+  forall j rid, nth_error rids j = Some rid ->
+    exists r, find (fun r => str_eqb (l_id r) rid) rs = Some r /\ l_ext r = false /\
+              renamed m (l_target r) = slide_name (S j).
+Proof. exact rename_in_order. Qed.
+Print Assumptions C16_rename.
+
+(** it fails only with KeyError (a listed id is not among the relationships, e.g. because
+    its dangling relationship was dropped at load) or ValueError (the id is external) *)
+Theorem C16_rename_errors : forall rs rids i e, rename_map rs rids i = Err e ->
+  (e = KeyErr /\ exists rid, In rid rids /\ find (fun r => str_eqb (l_id r) rid) rs = None) \/
+  (e = ValueErr /\ exists rid r, In rid rids /\ find (fun r => str_eqb (l_id r) rid) rs = Some r /\ l_ext r = true).
+Proof. exact rename_map_err. Qed.
+Print Assumptions C16_rename_errors.
+
 (** ---- non-vacuity ---- *)
 
 (* the deck of C01 opens as a presentation; its main part is /ppt/presentation.xml *)
@@ -114,3 +165,38 @@ Proof. split; reflexivity. Qed.
 Example C16_ex_case :
   ct_in wenv ex_deck n_ppt_slides_slide1_xml = Ok ct_slide /\ ct_in wenv ex_deck n_ppt_media_image1_png = Ok ct_png.
 Proof. vm_compute. split; reflexivity. Qed.
+
+(* an irregular package (dangling core-properties and slide relationships, the absent slide
+   still owning a rels item, a slide without rels item, an unreferenced thumbnail) meets
+   the hypotheses of C16_regularise and C16_preserved *)
+Example C16_ex_irregular_loads :
+  match load wenv ex_irregular with
+  | Ok k => map p_name (iter_parts k) = [n_ppt_presentation_xml; n_ppt_slides_slide1_xml]
+            /\ map p_name (k_parts k) = [n_ppt_presentation_xml; n_ppt_slides_slide1_xml; n_ppt_media_image1_png]
+            /\ length (k_rels k) = 1%nat
+  | Err _ => False
+  end.
+Proof. vm_compute. repeat split. Qed.
+
+Example C16_ex_irregular_names : forall n, In n (part_names wenv ex_irregular) -> part_name n.
+Proof. exact ex_irregular_names. Qed.
+
+Example C16_ex_irregular_reg_wf : wf wenv (regularise wenv ex_irregular).
+Proof. exact ex_irregular_reg_wf. Qed.
+
+Example C16_ex_regularised_members :
+  has n_docProps_thumbnail_jpeg (regularise wenv ex_irregular) = false
+  /\ has n_ppt_slides_NULL (regularise wenv ex_irregular) = false
+  /\ has n_ppt_slides__rels_slide1_xml_rels (regularise wenv ex_irregular) = true
+  /\ length (regularise wenv ex_irregular) = 8%nat.
+Proof. vm_compute. repeat split. Qed.
+
+(* renaming on the deck of C01: rId7 of the main part is its one slide *)
+Example C16_ex_rename :
+  match load_presentation wenv ex_deck with
+  | Ok (k, main) =>
+      exists m, rename_map (p_rels main) [s_rId7] 1 = Ok m /\ NoDup (map fst m) /\
+                renamed m n_ppt_slides_slide1_xml = slide_name 1
+  | Err _ => False
+  end.
+Proof. exact ex_deck_rename. Qed.
